@@ -2,7 +2,7 @@
 
 import io
 from .. import components
-from .util import default_alignment, bytes2datastring
+from .util import default_alignment, bytes2datastring, name2string
 from ..util import float_to_text
 
 
@@ -64,7 +64,12 @@ class TextWriter:
         self.emit(")", ")")
 
     def write_import_definition(self, imp: components.Import):
-        self.emit("(", "import", f'"{imp.modname}"', f'"{imp.name}"')
+        self.emit(
+            "(",
+            "import",
+            f'"{name2string(imp.modname)}"',
+            f'"{name2string(imp.name)}"',
+        )
         self.emit("(", f"{imp.kind}")
         # Get description
         if imp.kind == "func":
